@@ -61,6 +61,7 @@ S0(P) == [ pc   |-> [a \in Actors(P) |-> 1],
            dmn  |-> [a \in Actors(P) |-> FALSE],       \* daemon
            kt   |-> [a \in Actors(P) |-> -1],          \* kill time (absolute date), -1 = none
            gr   |-> [a \in Actors(P) |-> FALSE],       \* MC granularity: the pending acquisition of a has been granted
+           susp |-> [a \in Actors(P) |-> FALSE],       \* a is suspended (Actor::suspend): it observes nothing until resumed
            hoff |-> [a \in Actors(P) |-> FALSE],       \* host of actor a (one host per actor) is off
            loff |-> FALSE,                             \* the link is off
            now  |-> 0,
@@ -224,7 +225,8 @@ RECURSIVE AnswerSet(_, _, _)
 AnswerSet(s, as, r) == IF as = {} THEN s ELSE LET a == CHOOSE x \in as : TRUE IN AnswerSet(Answer(s, a, r), as \ {a}, r)
 \* the actor is gone: its joiners are released, what it still took part in is cancelled
 Finish(P, s, a, how) ==
-  AnswerSet(ExitCleanup(P, [s EXCEPT !.ph[a] = how, !.kt[a] = -1, !.tmr[a] = -1, !.blk[a] = NoBlk], a), Joiners(P, s, a), "ok")
+  AnswerSet(ExitCleanup(P, [s EXCEPT !.ph[a] = how, !.kt[a] = -1, !.tmr[a] = -1, !.blk[a] = NoBlk, !.susp[a] = FALSE], a),
+            Joiners(P, s, a), "ok")
 \* ActorImpl::exit(): the victim leaves every queue, its pending timer is dropped, its activities are cancelled; it will run
 \* once more, only to die (ForcefulKillException)
 KillActor(P, s, t) ==
@@ -238,7 +240,7 @@ KillActor(P, s, t) ==
                   [] b.kind = "bar" -> [s EXCEPT !.bq[b.o] = RemoveFirst(@, t)]
                   [] OTHER -> s IN
        CancelAll(P, [q EXCEPT !.ph[t] = "dying", !.blk[t] = NoBlk, !.tmr[t] = -1, !.res[t] = "none", !.pres[t] = "none",
-                              !.kt[t] = -1], Mine(q, t))
+                              !.kt[t] = -1, !.susp[t] = FALSE], Mine(q, t))      \* (a killed actor is resumed first)
 RECURSIVE KillSet(_, _, _)
 KillSet(P, s, ts) == IF ts = {} THEN s ELSE LET t == CHOOSE x \in ts : TRUE IN KillSet(P, KillActor(P, s, t), ts \ {t})
 \* ------------------------------------------------------------------ resource failures (C10)
@@ -270,15 +272,26 @@ RunOnExit(P, s, a) ==      \* pre: s.ph[a] = "exiting"
   LET n == [s EXCEPT !.oex[a] = Tail(@), !.oerun[a] = Append(@, Head(s.oex[a]))] IN
   IF Len(s.oex[a]) = 1 THEN Finish(P, [n EXCEPT !.pres[a] = "none"], a, s.pres[a]) ELSE n
 
+\* ------------------------------------------------------------------ suspension (C11)
+\* ActorImpl::suspend / resume. A suspended actor is never given the hand: whatever answers it gets (mutex or semaphore granted,
+\* timeout, end of its sleep, death of the actor it joined) are observed only once it is resumed (ActorImpl::yield). Time is not
+\* frozen: a sleep (or the timeout of a join) keeps elapsing while its actor is suspended (the CPU model bounds a sleep action by
+\* its max_duration, which a suspended action keeps consuming); it simply returns at max(end of the sleep, date of the resume).
+\* Not modelled (deliberately undefined): suspending an actor that takes part in a communication or an execution.
+Suspendable(s, o) == s.ph[o] \in {"run", "issued", "blocked", "answered"}
+Suspend(s, o) == [s EXCEPT !.susp[o] = TRUE]
+\* (an actor that suspends itself is answered at once, and then waits like the others for somebody to resume it)
+Resume(s, o) == [s EXCEPT !.susp[o] = FALSE]
+
 Keep(s, a, r) == [s EXCEPT !.hnd[a] = Append(@, [c |-> s.cur[a], r |-> r, seen |-> FALSE])]
 \* Once an actor has observed the completion of one of its handles (wait returned, test said true), the s4u object is
 \* FINISHED and a later test() on it returns true at once without any simcall (Activity::wait_for always does a simcall).
 OnHandle(op) == op.op \in {"wait", "waitfor", "test"}
 IsLocal(P, s, a) == LET op == Cur(P, s, a) IN
                     \/ op.op = "test" /\ op.o <= Len(s.hnd[a]) /\ s.hnd[a][op.o].seen
-                    \/ op.op = "kill" /\ s.ph[op.o] = "unborn"        \* nobody to kill yet: no simcall
+                    \/ op.op \in {"kill", "suspend", "resume"} /\ s.ph[op.o] = "unborn"        \* nobody there yet: no simcall
 LocalRet(P, s, a) == LET op == Cur(P, s, a) IN
-                     IF op.op = "kill" THEN Answer(s, a, "ok")
+                     IF op.op \in {"kill", "suspend", "resume"} THEN Answer(s, a, "ok")
                      ELSE LET h == s.hnd[a][op.o] IN
                           AnswerV(s, a, "true", IF h.r /\ s.act[h.c].st = "done" THEN s.act[h.c].pay ELSE 0)       \* an asynchronous operation returns a handle
 
@@ -362,6 +375,11 @@ HandleRun(P, s, a) ==
     [] k = "join"     -> IF s.ph[o] = "unborn" THEN Abort(s, a)
                          ELSE IF s.ph[o] \in {"done", "dead", "dying", "exiting"} THEN Answer(s, a, "ok")
                          ELSE Block([s EXCEPT !.tmr[a] = IF op.t >= 0 THEN s.now + op.t ELSE -1], a, "join", o, 0)
+    \* ---- suspension (o = other actor, or the caller itself)
+    [] k = "suspend"  -> IF ~Suspendable(s, o) THEN Answer(s, a, "ok")
+                         ELSE IF Mine(s, o) # {} \/ (s.ph[o] = "blocked" /\ s.blk[o].kind = "act") THEN Undef(s, a)   \* not modelled
+                         ELSE Answer(Suspend(s, o), a, "ok")
+    [] k = "resume"   -> IF ~Suspendable(s, o) THEN Answer(s, a, "ok") ELSE Answer(Resume(s, o), a, "ok")
     \* ---- resource failures (o = host = actor number)
     [] k = "hostoff" -> IF o = a THEN Undef(s, a) ELSE Answer(HostOff(P, s, o), a, "ok")
     [] k = "hoston"  -> Answer([s EXCEPT !.hoff[o] = FALSE], a, "ok")
@@ -430,7 +448,7 @@ HandleMC(P, s, a) ==
 Handle(P, s, a) == IF P.gran = "mc" THEN HandleMC(P, s, a) ELSE HandleRun(P, s, a)
 
 \* ------------------------------------------------------------------ time
-Ready(s, a)     == s.ph[a] \in {"run", "issued", "answered", "dying", "exiting"}
+Ready(s, a)     == s.ph[a] \in {"run", "issued", "dying", "exiting"} \/ (s.ph[a] = "answered" /\ ~s.susp[a])
 \* MC granularity: an actor can move iff its next transition is enabled (a pending *_WAIT may be disabled)
 MoreSub(P, s, a) == s.ph[a] = "answered" /\ s.res[a] = "ok" /\ s.sub[a] < NSubP(P, Cur(P, s, a))
 NextSub(P, s, a) == [s EXCEPT !.sub[a] = @ + 1, !.res[a] = "none", !.rval[a] = 0, !.ph[a] = "run"]
@@ -542,6 +560,7 @@ PhaseConsistency(P, s) ==
      /\ (s.ph[a] = "answered") = (s.res[a] # "none")
      /\ (s.tmr[a] >= 0 => s.ph[a] = "blocked" /\ s.blk[a].kind \in {"sleep", "sem", "cv", "act", "join"})
      /\ s.tmr[a] # -1 => s.tmr[a] >= s.now          \* C03: no pending date in the past
+     /\ (s.susp[a] => Alive(s, a) /\ s.ph[a] \notin {"dying", "exiting"})
 
 \* C08 / C09: every payload is received at most once, only payloads that were sent are received, a queued entry is
 \* unmatched, and nobody waits on a finished activity
